@@ -581,6 +581,14 @@ func genGens(r *rng, c genCfg) *scenario {
 	if err := sc.buildAll(); err != nil {
 		return sc
 	}
+	sc.gensify(r)
+	return sc
+}
+
+// gensify replaces some directly registered converters by generators that return them (the functions must
+// have been built: a generated function needs a Go type of its own), and sometimes adds an idle or
+// failing generator.
+func (sc *scenario) gensify(r *rng) {
 	unique := func(id int) bool {
 		for _, f := range sc.Funcs {
 			if f.ID != id && f.rtype == sc.Funcs[id].rtype {
@@ -640,7 +648,6 @@ func genGens(r *rng, c genCfg) *scenario {
 			sc.Defaults++
 		}
 	}
-	return sc
 }
 
 // genMalformed: a general scenario with one malformed element among the call options.
